@@ -182,6 +182,36 @@ def convert_pair(prog, d, via, from_only=False):
     for h in prog.fns.values():
         bynorm.setdefault(norm(h.name), h)
 
+    class _Shown(Exception):
+        def __init__(self, v):
+            self.v = v
+
+    def display_of(val, depth):
+        """`v.to_string()` for a variant of E whose Display::fmt is `write!(f, "{}", <str picked by a match on self>)`:
+        the shape is checked (one placeholder and nothing else in the template), then fmt is run up to the point
+        where the string is wrapped as the format argument."""
+        fm = [h for h in prog.fns.values() if last(h.name) == "fmt" and h.get("argc") == 2
+              and (h.pretty or "").endswith(" as std::fmt::Display>::fmt") and re.search(e_pat[:-1] + " as ", h.pretty or "")]
+        if len(fm) != 1:
+            raise Stuck("Display impl of %s not found" % short_e)
+        g = fm[0]
+        names = sorted(last(norm(inst_of(t))) for _, t in g.calls())
+        tmpl = [str(x["rv"].get("op", {}).get("k", {}).get("const", "")) for b in g.blocks for x in b["s"]
+                if x["k"] == "assign" and x["rv"]["k"] == "use" and isinstance(x["rv"].get("op"), dict) and "k" in x["rv"]["op"]
+                and str(x["rv"]["op"]["k"].get("const", "")).startswith('b"')]
+        if names != ["new", "new_display", "write_fmt"] or tmpl != ['b"\\xc0\\x00"']:
+            raise Stuck("Display::fmt of %s is not `write!(f, \"{}\", s)` (calls %s, template %s)" % (short_e, names, tmpl))
+
+        def call2(t, a):
+            if last(norm(inst_of(t))) == "new_display" and a and a[0][0] == "str":
+                raise _Shown(a[0])
+            raise Stuck("call to %s in Display::fmt" % norm(inst_of(t)))
+        try:
+            Interp(g, max_steps=2000).run({1: val, 2: ("opaque", "formatter")}, hooks={"call": call2})
+        except _Shown as e:
+            return e.v
+        raise Stuck("Display::fmt of %s did not reach its format argument" % short_e)
+
     def ev(f, args, depth=0):
         if depth > 8:
             raise Stuck("conversion helpers nest too deeply")
@@ -212,6 +242,8 @@ def convert_pair(prog, d, via, from_only=False):
                     return a[0][4][0]
             if a and a[0][0] == "variant" and m == "clone":
                 return a[0]
+            if a and a[0][0] == "variant" and m == "to_string" and a[0][1] == ename:
+                return display_of(a[0], depth)
             raise Stuck("call to %s" % inst)
         env = {i + 1: x for i, x in enumerate(args)}
         r, _ = Interp(f, max_steps=2000).run(env, hooks={"call": call})
